@@ -11,6 +11,8 @@
 (*  leaves     <<"just", <<t1..tn>>>>  <<"any">>  <<"oneof", <<ts>>>>      *)
 (*             <<"noneof", <<ts>>>>  <<"sel", <<ts>>>>  <<"end">>          *)
 (*             <<"empty">>  <<"cust", k, ok>>  <<"probe", id>>             *)
+(*             <<"prog", instructions, subparsers>>: custom(..) as a       *)
+(*             program over InputRef's public methods (see ChumskyVM)      *)
 (*             <<"cfgjust">> (just(..).configure(seq from ctx))            *)
 (*             <<"anyr">> any_ref()  <<"selr", <<ts>>>> select_ref!{..}    *)
 (*             (the by-reference primitives of BorrowInput kinds)          *)
@@ -194,6 +196,8 @@ CanEmpty(g) ==
     [] o = "tpadded" -> CanEmpty(g[2])
     [] o \in {"end", "empty", "probe", "cfgjust", "cfgjustr"} -> TRUE
     [] o \in {"cust", "ext"} -> g[2] = 0 /\ g[3]
+    \* a program certainly consumes when it starts with next() and never rewinds
+    [] o = "prog" -> ~(g[2] # <<>> /\ g[2][1][1] = "n" /\ \A i \in DOMAIN g[2] : g[2][i][1] # "rw")
     [] o \in {"then", "ithen", "theni"} -> CanEmpty(g[2]) /\ CanEmpty(g[3])
     [] o = "delim" -> CanEmpty(g[2]) /\ CanEmpty(g[3]) /\ CanEmpty(g[4])
     [] o = "padded" -> CanEmpty(g[2])
@@ -241,6 +245,10 @@ WF(g) ==
   LET o == Op(g) IN
   CASE o \in {"just", "any", "oneof", "noneof", "sel", "end", "empty", "cust", "ext", "probe", "cfgjust", "cfgjustr", "ref", "var", "tree", "anyr", "selr", "newline"} -> TRUE
     [] o = "text" -> WF(g[4])
+    \* a rewind needs an earlier save; sub-parser indices are in range
+    [] o = "prog" -> /\ AllWF(g[3])
+                     /\ \A i \in DOMAIN g[2] : /\ g[2][i][1] = "rw" => \E j \in 1..(i - 1) : g[2][j][1] = "sv"
+                                                  /\ g[2][i][1] \in {"sub", "chk"} => g[2][i][2] \in DOMAIN g[3]
     [] o \in {"sleq", "tpadded"} -> WF(g[2])
     [] o \in {"then", "ithen", "theni", "or", "andis", "thenctx", "ignctx", "nested", "let"} -> WF(g[2]) /\ WF(g[3])
     [] o = "delim" -> WF(g[2]) /\ WF(g[3]) /\ WF(g[4])
@@ -266,6 +274,7 @@ HasOp(g, ops) ==
   \/ o \in ops
   \/ CASE o \in {"just", "any", "oneof", "noneof", "sel", "end", "empty", "cust", "ext", "probe", "cfgjust", "cfgjustr", "ref", "var", "tree", "anyr", "selr", "newline"} -> FALSE
        [] o = "text" -> HasOp(g[4], ops)
+       [] o = "prog" -> AnyHasOp(g[3], ops)
        [] o \in {"sleq", "tpadded"} -> HasOp(g[2], ops)
        [] o \in {"then", "ithen", "theni", "or", "andis", "thenctx", "ignctx", "nested", "padded", "let"} -> HasOp(g[2], ops) \/ HasOp(g[3], ops)
        [] o = "delim" -> HasOp(g[2], ops) \/ HasOp(g[3], ops) \/ HasOp(g[4], ops)
@@ -291,6 +300,7 @@ MemoSub(g) ==
   (IF o = "memo" THEN {g} ELSE {}) \cup
   CASE o \in {"just", "any", "oneof", "noneof", "sel", "end", "empty", "cust", "ext", "probe", "cfgjust", "cfgjustr", "ref", "var", "tree", "anyr", "selr", "newline"} -> {}
     [] o = "text" -> MemoSub(g[4])
+    [] o = "prog" -> MemoSubSeq(g[3])
     [] o \in {"sleq", "tpadded"} -> MemoSub(g[2])
     [] o \in {"then", "ithen", "theni", "or", "andis", "thenctx", "ignctx", "nested", "padded", "let", "sep", "foldl", "foldr", "foldlw", "foldrw",
               "recover", "skipuntil", "retry"} -> MemoSub(g[2]) \cup MemoSub(g[3])
@@ -310,6 +320,7 @@ Size(g) ==
     [] o \in {"then", "ithen", "theni", "or", "andis", "thenctx", "ignctx", "nested", "padded", "sep", "foldl", "foldr", "foldlw", "foldrw", "recover", "skipuntil", "retry"} -> 1 + Size(g[2]) + Size(g[3])
     [] o = "delim" -> 1 + Size(g[2]) + Size(g[3]) + Size(g[4])
     [] o \in {"group", "grouparr", "choice", "choicev"} -> 1 + SizeSeq(g[2])
+    [] o = "prog" -> 1 + SizeSeq(g[3])
     [] o \in {"withctx", "mapctx"} -> 1 + Size(g[3])
     [] OTHER -> 1 + Size(g[2])
 =============================================================================
